@@ -37,6 +37,7 @@ type Cfg struct {
 	MaxReads    int      `json:"max_reads"`
 	MaxFaults   int      `json:"max_faults"` // total number of failing replica-calls + monitor failures per path (0 = unbounded)
 	Real        bool     `json:"real"`
+	Clone       bool     `json:"clone"` // second volume whose only replica is a clone of a snapshot of the first
 	Revs        []int64  `json:"revs"`   // initial revision counters of the nodes (C09)
 	States      []string `json:"states"` // initial registration states ("closed" | "rebuilding" | "dirty")
 	InitOps     []string `json:"init_ops"`
@@ -74,6 +75,7 @@ type be struct {
 	r          *remote.Remote
 	monitoring bool // monitorPing has not yet sent on monitorChan
 	detached   bool // seen absent from the controller after some event
+	ownerB     bool // belongs to the second volume's controller
 }
 
 type frontend struct{ up bool }
@@ -137,7 +139,14 @@ type cluster struct {
 	pendingFailed  []int    // nodes that failed the last I/O: must be detached once the controller is quiescent
 	internalBefore []string // internal events that were pending when the current external event started
 	lastKeyText    string
-	task           *task
+	task           *task // replica-side task (rebuild, clone)
+	taskX          *task // controller-side call under step control (the clone volume's Start)
+	cur            *task // the task that owns the CPU right now
+	cB             *controller.Controller // second volume (clone scenario)
+	feB            *frontend
+	ctlRouterB     http.Handler
+	signalsB       []string
+	cloneOf        int
 	stepBefore     controller.VerifView
 	procs          []*agentProc
 	ctlRouter      http.Handler
@@ -179,10 +188,13 @@ type transport struct{}
 
 func (transport) RoundTrip(req *http.Request) (*http.Response, error) {
 	cl := curr
-	top := atomic.AddInt32(&reqDepth, 1) == 1
-	defer atomic.AddInt32(&reqDepth, -1)
-	if top && cl.task != nil && cl.task.running && gated(req) {
-		cl.gate(req.Method + " " + gateName(req))
+	if t := cl.cur; t != nil && t.running {
+		// per-task nesting depth: only the task's own top-level requests are gates (handlers it reaches make nested ones)
+		top := atomic.AddInt32(&t.depth, 1) == 1
+		defer atomic.AddInt32(&t.depth, -1)
+		if top && gated(req) {
+			cl.gate(req.Method + " " + gateName(req))
+		}
 	}
 	if resp, ok := cl.routeExtra(req); ok {
 		return resp, nil
@@ -359,13 +371,13 @@ func newCluster(cfg *Cfg, scratch string) *cluster {
 func gateName(req *http.Request) string {
 	h := strings.Split(req.URL.Host, ":")
 	who := "replica" + strings.TrimPrefix(h[0], "10.0.0.")
-	if h[0] == ctlHost {
-		who = "controller"
+	if h[0] == ctlHost || h[0] == ctlHostB {
+		who = "controller" + strings.TrimPrefix(h[0], "10.0.0.10")
 	} else if len(h) > 1 && h[1] == "9504" {
 		who = "agent" + strings.TrimPrefix(h[0], "10.0.0.")
 	}
 	p := req.URL.Path
-	if i := strings.Index(p, "/replicas/"); i >= 0 && who == "controller" {
+	if i := strings.Index(p, "/replicas/"); i >= 0 && strings.HasPrefix(who, "controller") {
 		p = p[:i] + "/replicas/<id>"
 	}
 	if a := req.URL.Query().Get("action"); a != "" {
@@ -375,9 +387,8 @@ func gateName(req *http.Request) string {
 }
 
 func (cl *cluster) destroy() {
-	if cl.task != nil && !cl.task.done {
-		cl.killTask()
-	}
+	cl.killTask(cl.task)
+	cl.killTask(cl.taskX)
 	for _, n := range cl.nodes {
 		n.Destroy()
 	}
@@ -472,7 +483,7 @@ func (cl *cluster) refreshDetached(v controller.VerifView) {
 		live[vb.Backend] = true
 	}
 	for _, b := range cl.bes {
-		if !live[b.r] {
+		if !live[b.r] && !b.ownerB {
 			b.detached = true
 		}
 	}
